@@ -85,7 +85,13 @@ func c01SectionLength(r *core.Report) {
 				continue
 			}
 			n++
-			be, isBin := core.Unparen(res[1]).(*ast.BinaryExpr)
+			sum := core.Unparen(res[1])
+			if o := core.ObjOf(info, sum); o != nil {
+				if d := singleDef(f, o); d != nil {
+					sum = core.Unparen(d) // a local assigned once from the sum
+				}
+			}
+			be, isBin := sum.(*ast.BinaryExpr)
 			if !isBin || be.Op != token.ADD {
 				ok = false
 				continue
@@ -154,7 +160,11 @@ func byteWidth(p *core.Prog, f *core.Func, e ast.Expr, depth int) int64 {
 			return 36 // table fact: CIDv1 sha2-256
 		}
 		if fn := core.Callee(info, x); fn != nil {
-			if t := p.ByObj[fn]; t != nil && t.Body != nil {
+			if t := p.ByObj[fn.Origin()]; t != nil && t.Body != nil {
+				// a fixed-size encoder method (OffsetAndSize.Bytes): its length by bit-level evaluation of its body
+				if n, ok := fixedResultLen(p, t); ok {
+					return n
+				}
 				return returnedSliceWidth(p, t)
 			}
 		}
@@ -212,8 +222,11 @@ func returnedSliceWidth(p *core.Prog, t *core.Func) int64 {
 				}
 			}
 		case *ast.Ident:
-			// buf := make([]byte, N)
+			// buf := make([]byte, N), never re-assigned (a buffer that is appended to has another length)
 			o := info.Uses[x]
+			if countAssignments(t, o) != 1 {
+				return -1
+			}
 			ast.Inspect(t.Body, func(m ast.Node) bool {
 				if as, ok := m.(*ast.AssignStmt); ok && len(as.Lhs) == 1 && len(as.Rhs) == 1 && core.ObjOf(info, as.Lhs[0]) == o {
 					if c, ok := core.Unparen(as.Rhs[0]).(*ast.CallExpr); ok && core.BuiltinName(info, c) == "make" && len(c.Args) >= 2 {
